@@ -56,7 +56,7 @@ orient_st = st.one_of(
 
 @st.composite
 def map_case_st(draw, thick=False):
-    mesh = draw(meshes.mesh_specs())
+    mesh = draw(meshes.mesh_specs(dims=(3,), rich=draw(st.integers(0, 3)) > 0) if thick else meshes.mesh_specs())
     case = {
         "mesh": mesh,
         "origin": {"mode": draw(st.sampled_from(["uniform", "uniform", "uniform", "inside", "inside", "inside", "centre",
@@ -73,9 +73,11 @@ def map_case_st(draw, thick=False):
         "schedule": draw(st.integers(0, 3)) == 0,
     }
     if thick:
-        case["dz"] = {"cls": draw(st.sampled_from(["pixel", "thin", "thin", "cell", "cells", "domain"])),
+        case["window"]["cls"] = draw(st.sampled_from(["1-10", ">10", "1-10", "0.1-1", "1-10", "<0.1"]))
+        case["origin"]["mode"] = draw(st.sampled_from(["inside", "inside", "inside", "uniform", "centre", "face", "none"]))
+        case["dz"] = {"cls": draw(st.sampled_from(["cells", "domain", "thin", "cell", "cells", "thin", "pixel"])),
                       "frac": draw(st.floats(0, 1)), "unit": draw(st.sampled_from(meshes.LEN_UNITS))}
-        case["op"] = draw(st.sampled_from(["sum", "mean", "min", "max", "nansum", "nanmean", "nanmin", "nanmax"]))
+        case["op"] = draw(st.sampled_from(["nansum", "mean", "nanmean", "sum", "min", "nanmax", "max", "nanmin"]))
         case["resz"] = draw(st.sampled_from([None, None, 1, 2, 3, 5, 8]))
         if isinstance(case["res"], int):
             case["res"] = min(case["res"], 12)
@@ -323,8 +325,11 @@ def thin_map(case, r):
                   f"{su['ratio']:.3g}; {int((inside & pm).sum())} such pixels of {nx * ny}")
             return
         want = cv[np.where(inside, idx, 0)]
-        diff = np.abs(vals - want) > 1e-9 * (np.abs(want) + 1e-300)
-        diff = diff.any(axis=2) if isvec else diff
+        if isvec:
+            mag = np.abs(want).max(axis=2, keepdims=True)           # rotated components may cancel to ~0
+            diff = (np.abs(vals - want) > 1e-9 * (mag + 1e-300)).any(axis=2)
+        else:
+            diff = np.abs(vals - want) > 1e-9 * (np.abs(want) + 1e-300)
         wrong = inside & ~pm & diff
         if np.any(wrong):
             j, i = np.argwhere(wrong)[0]
@@ -342,8 +347,8 @@ def thin_map(case, r):
         for j, i in np.argwhere(amb):
             cands = cv[touch[j, i]]
             got = vals[j, i]
-            okc = np.any(np.all(np.abs(cands - got) <= 1e-9 * (np.abs(cands) + 1e-300), axis=1)) if isvec else \
-                np.any(np.abs(cands - got) <= 1e-9 * (np.abs(cands) + 1e-300))
+            okc = np.any(np.all(np.abs(cands - got) <= 1e-9 * (np.abs(cands).max(axis=1, keepdims=True) + 1e-300), axis=1)) \
+                if isvec else np.any(np.abs(cands - got) <= 1e-9 * (np.abs(cands) + 1e-300))
             if not okc:
                 r.bad(["face-pixel-foreign-value", name], f"pixel (j={j}, i={i}) on a cell face shows {got!r}, touching cells have "
                       f"{cands.tolist()}")
